@@ -39,7 +39,7 @@ def get(work, stage, tier, seed):
         os.makedirs(os.path.dirname(path), exist_ok=True)
         # keep the cache directory small: drop entries of other tree states
         for d in os.listdir(CACHE):
-            if d != key():
+            if d != key() and d != "vgen":
                 import shutil
                 shutil.rmtree(os.path.join(CACHE, d), ignore_errors=True)
         with open(path + ".tmp", "w") as f:
@@ -1295,7 +1295,246 @@ def stage_builder(work, tier, seed):
             "samples": [dict(id=did, text=meta[did][1]) for did in list(meta)[:40:15]]}
 
 
-STAGES = {"builder": stage_builder, "determinism": stage_determinism, "regen": stage_regen, "pipeline": stage_pipeline, "lex": stage_lex, "resolve": stage_resolve, "prec": stage_prec, "tables": stage_tables, "lr": stage_lr, "mci_lr": stage_mci_lr, "glr": stage_glr}
+
+def stage_codegen(work, tier, seed):
+    """C08: generated parsers (Arrays / Functions x LR / GLR) answer every table
+    query as the dumped table; both layouts parse shared inputs identically."""
+    from . import vgen
+    rng = random.Random(seed * 17 + 2)
+    cor = corpus(tier, seed)
+    cur = [c for c in cor if "curated" in c[2] or "annotated" in c[2]]
+    rnd = [c for c in cor if "random" in c[2]]
+    ng = 14 if tier == "quick" else 90
+    chosen = rng.sample(cur, min(ng // 2, len(cur))) + rng.sample(rnd, min(ng - ng // 2, len(rnd)))
+    # lexically ambiguous grammars exercise the lexical-strategy flags of the definition
+    lexg = [("lexamb:%d" % i, g, {"lex"}) for i, (gid, g) in enumerate(lex_sets(seed, 3 if tier == "quick" else 12))]
+    cases = []
+    insts = []
+    k = 0
+    for gid, g, tags in chosen + lexg:
+        text = G.render(g)
+        r2 = random.Random("cg-%s-%d" % (gid, seed))
+        if "lex" in tags:
+            ins = [w for w in LEX_WINDOWS[:6]]
+        else:
+            ins = []
+            for toks, kind in gen_inputs(g, r2, 3, 3):
+                if len(toks) <= 8:
+                    ins.append(G.render_input(g, toks, r2)[0])
+        for algo in ("lr", "glr"):
+            k += 1
+            cid = "%s|%s" % (gid, algo)
+            cfgv = {"algo": algo}
+            if "lex" in tags and algo == "glr":
+                cfgv = {"algo": "glr", "lm": r2.random() < 0.5, "go": r2.random() < 0.5}
+            cases.append({"id": cid, "grammar": text, "cfg": cfgv, "meta": {"nodis": False, "plain": False}})
+            for gen in ("arrays", "functions"):
+                st = {"algo": algo, "gen": gen, "builder": "generic"}
+                for kk in ("lm", "go"):
+                    if kk in cfgv:
+                        st[kk] = cfgv[kk]
+                insts.append({"name": "p%d_%s" % (k, gen), "cid": cid, "grammar": text, "settings": st,
+                              "inputs": ins, "pair": k})
+    pres = run.run_vdrive(work, "codegen", cases, shards=4)
+    dumps = {}
+    for p in pres:
+        for d in run.read_ndjson(p + ".dumps.ndjson"):
+            dumps[d["id"]] = d
+    use = []
+    for inst in insts:
+        d = dumps.get(inst["cid"])
+        if d is None or (inst["settings"]["algo"] == "lr" and d["t"]["nconflicts"] > 0):
+            continue
+        inst["table"] = d["t"]
+        inst["cfg"] = d["cfg"]
+        use.append(inst)
+    res = vgen.build(work, use)
+    recs = []
+    rustc = []
+    for inst in use:
+        r = res[inst["name"]]
+        if r["rustc"]:
+            rustc.append(dict(id=inst["cid"] + "/" + inst["settings"]["gen"], errs=r["rustc"], grammar=inst["grammar"]))
+        if r["table"] is None:
+            continue
+        recs.append({"id": inst["cid"] + "/" + inst["settings"]["gen"], "pair": inst["pair"], "cfg": inst["cfg"],
+                     "q": r["table"], "t": inst["table"], "runs": r["runs"]})
+    rp = work.path("codegen", "recs.ndjson")
+    envs = []
+    # keep pairs together when sharding
+    pairs = sorted({r["pair"] for r in recs})
+    for sh in range(8):
+        part = [r for r in recs if pairs.index(r["pair"]) % 8 == sh]
+        if not part:
+            continue
+        fp = "%s.%d" % (rp, sh)
+        with open(fp, "w") as f:
+            for x in part:
+                f.write(json.dumps(x) + "\n")
+        envs.append({"RECS": fp})
+    rs = run.run_tlc_shards(work, "CheckCodegen", "CheckCodegen.cfg", envs)
+    verdicts = [v for r in rs for v in r["verdicts"]]
+    gt = {i["cid"] + "/" + i["settings"]["gen"]: i["grammar"] for i in use}
+    return {"verdicts": [v for v in verdicts if v["bad"]], "gtext": {v["id"]: gt[v["id"]] for v in verdicts if v["bad"]},
+            "rustc": rustc[:20],
+            "states": sum(r["distinct"] for r in rs), "transitions": sum(r["states"] for r in rs),
+            "programs": len(recs), "ncases": len(use), "ntraces": len(verdicts),
+            "nqueries": sum(v["nstates"] for v in verdicts), "nruns": sum(v["nruns"] for v in verdicts),
+            "npaired": sum(1 for v in verdicts if v["paired"]),
+            "samples": [dict(id=v["id"], states=v["nstates"], inputs_run=v["nruns"]) for v in verdicts[:3]]}
+
+
+
+T_NUMNAME = "Num: /\\d+/;\nName: /[a-z]+/;\n"
+# (name, grammar text, inputs, expected number of None (-1 = not judged) per input, lr_ok)
+AST_SHAPES = [
+    ("enum_terms", "S: Num | Name;\nterminals\n" + T_NUMNAME, ["1", "ab"], None),
+    ("struct2", "S: a=Num b=Name c=Num;\nterminals\n" + T_NUMNAME, ["1 ab 2"], None),
+    ("calc", "E: left=E '+' right=E {Add, 1, left} | left=E '*' right=E {Mul, 2, left} | '(' E ')' {Paren} | Num;\n"
+             "terminals\nNum: /\\d+/;\nPlus: '+';\nMul: '*';\nLp: '(';\nRp: ')';\n",
+     ["1 + 2 * 3", "( 1 + 2 ) * 3 + 4", "5"], None),
+    ("plus", "S: Num+;\nterminals\n" + T_NUMNAME, ["1", "1 2 3 4"], None),
+    ("star", "S: Num* Name;\nterminals\n" + T_NUMNAME, ["x", "1 2 3 x"], None),
+    ("plus_sep", "S: Num+[Comma];\nterminals\nNum: /\\d+/;\nComma: ',';\n", ["1", "1, 2, 3, 4"], None),
+    ("star_sep", "S: Num*[Comma] Semi Name;\nterminals\n" + T_NUMNAME + "Comma: ',';\nSemi: ';';\n",
+     ["; x", "1, 2, 3 ; x"], None),
+    ("plus_regex_sep", "S: Num+[Sep];\nterminals\nNum: /\\d+/;\nSep: /[a-z]+/;\n", ["1", "1 a 2 b 3"], None),
+    ("optional", "S: Name At? Num;\nAt: Colon Num;\nterminals\n" + T_NUMNAME + "Colon: ':';\n",
+     ["x 1", "x : 2 1"], [1, 0]),
+    ("optional_struct", "S: Name At Num;\nAt: Colon Num Name | EMPTY;\nterminals\n" + T_NUMNAME + "Colon: ':';\n",
+     ["x 1", "x : 2 y 1"], [1, 0]),
+    ("two_optionals", "Decl: name=Name ty=TypeSpec? init=Num?;\nTypeSpec: Colon Name;\nterminals\n" + T_NUMNAME + "Colon: ':';\n",
+     ["x", "x : int", "x 5", "x : int 5"], [2, 1, 1, 0]),
+    ("two_optionals_prio", "Decl: name=Name ty=TypeSpec? init=Num? {15};\nTypeSpec: Colon Name;\nterminals\n" + T_NUMNAME + "Colon: ':';\n",
+     ["x", "x : int", "x 5", "x : int 5"], [2, 1, 1, 0]),
+    ("rec_ref", "A: B;\nB: Lp A Rp | Num;\nterminals\nLp: '(';\nRp: ')';\nNum: /\\d+/;\n", ["1", "( ( 2 ) )"], None),
+    ("vec_left", "@vec\nL: L Num | Num;\nterminals\n" + T_NUMNAME, ["1", "1 2 3 4"], None),
+    ("vec_right", "@vec\nL: Num L | Num;\nterminals\n" + T_NUMNAME, ["1", "1 2 3 4"], None),
+    ("vec_left_sep", "@vec\nL: L Comma Num | Num;\nterminals\nNum: /\\d+/;\nComma: ',';\n", ["1", "1, 2, 3"], None),
+    ("vec_empty", "S: Name L;\n@vec\nL: L Num | Num | EMPTY;\nterminals\n" + T_NUMNAME, ["x", "x 1 2 3"], None),
+    ("vec_empty_strs", "S: Ta L;\n@vec\nL: L Tb | Tb | EMPTY;\nterminals\nTa: /a/;\nTb: /b/;\n", ["a"], None),
+    ("nested_sugar", "S: A*;\nA: Num? Name+ Semi;\nterminals\n" + T_NUMNAME + "Semi: ';';\n",
+     ["", "1 a b ; c ; 2 d ;"], None),
+    ("unreachable", "S: Num;\nU: Name Name;\nterminals\n" + T_NUMNAME, ["7"], None),
+    ("all_const", "S: Ta Tb | Tb;\nterminals\nTa: 'a';\nTb: 'b';\n", ["a b", "b"], None),
+    ("choice_clash", "E: Num {Add} | Add;\nAdd: Name;\nterminals\n" + T_NUMNAME, ["1", "x"], None),
+    ("kinds3", "E: Num {K} | Name {K} | Num Name {K1} | Name Num {K1};\nterminals\n" + T_NUMNAME, ["1", "x", "1 x", "x 1"], None),
+    ("stmts", "P: St*;\nSt: Name Eq Ex Semi {Assign} | Pr Ex Semi {Print};\nEx: Num | Name;\nterminals\n" + T_NUMNAME
+     + "Eq: '=';\nPr: '!';\nSemi: ';';\n", ["a = 1 ; ! b ; c = d ;", ""], None),
+    ("layout", "S: Num+;\nLayout: LayoutItem*;\nLayoutItem: WS | Comment;\nterminals\nNum: /\\d+/;\nWS: /\\s+/;\nComment: /\\/\\/.*/;\n",
+     ["1 2 // c\n3"], None),
+    ("json_like", "V: O | A | Num | Name;\nO: Lb Ms? Rb;\nMs: Ms Comma M | M;\nM: Name Colon V;\nA: Ls Vs? Rs;\nVs: Vs Comma V | V;\n"
+     "terminals\n" + T_NUMNAME + "Lb: '{';\nRb: '}';\nLs: '[';\nRs: ']';\nComma: ',';\nColon: ':';\n",
+     ["{ a : 1 , b : [ 2 , c , { } ] }", "[ ]"], None),
+    ("bool_assign", "S: a?=Ta? n=Num b?=Tb?;\nterminals\nTa: 'a';\nTb: 'b';\nNum: /\\d+/;\n", ["a 1 b", "1"], None),
+    ("same_prod_kinds", "S: Num {Aa} | Name {Aa};\nterminals\n" + T_NUMNAME, ["1"], None),
+    ("dup_rule_name", "S: A A;\nA: Num;\nA: Name;\nterminals\n" + T_NUMNAME, ["1 x"], None),
+    ("keyword_field", "S: type=Num fn=Name;\nterminals\n" + T_NUMNAME, ["1 x"], None),
+    ("underscore_names", "my_rule: my_item+;\nmy_item: Num | Name;\nterminals\n" + T_NUMNAME, ["1 x 2"], None),
+]
+
+
+def stage_ast(work, tier, seed):
+    """C10 + C11: generated parser + generated actions (default builder) for the
+    shape space x settings: rustc must accept them (C11) and the value returned must
+    carry every content token once, in input order (C10)."""
+    import re as _re
+    from . import vgen
+    insts = []
+    k = 0
+    combos = [dict(algo="lr"), dict(algo="glr"), dict(algo="lr", tt="rn"), dict(algo="lr", loc_info=True),
+              dict(algo="glr", loc_info=True, gen="arrays"), dict(algo="lr", gen="arrays"),
+              dict(algo="lr", fancy=True), dict(algo="glr", builder="generic"), dict(algo="lr", builder="generic", gen="arrays"),
+              dict(algo="lr", builder="custom"), dict(algo="glr", builder="custom"),
+              dict(algo="lr", lexer="custom"), dict(algo="glr", lexer="custom", loc_info=True)]
+    if tier == "quick":
+        combos = combos[:5] + combos[7:8] + combos[9:10] + combos[11:12]
+    for name, text, inputs, nones in AST_SHAPES:
+        for ci, st in enumerate(combos):
+            k += 1
+            st2 = dict(st)
+            st2.setdefault("builder", "default")
+            extra = []
+            if st2["builder"] == "custom":
+                continue_custom = True
+            if st2.get("lexer") == "custom":
+                extra.append(("g_lexer", "pub type Input = str;\n"))
+            insts.append({"name": "a%d" % k, "shape": name, "grammar": text, "settings": st2, "inputs": inputs,
+                          "nones": nones, "table": None, "extra_mods": extra, "combo": ci})
+    # tables are needed for the query/run module (names of enum variants): dump with the same settings
+    cases = []
+    for inst in insts:
+        st = inst["settings"]
+        cfgv = {"algo": st["algo"]}
+        if "tt" in st:
+            cfgv["tt"] = st["tt"]
+        cases.append({"id": inst["name"], "grammar": inst["grammar"], "cfg": cfgv,
+                      "meta": {"nodis": False, "plain": False}})
+    pres = run.run_vdrive(work, "ast", cases, shards=4)
+    dumps = {}
+    for p in pres:
+        for d in run.read_ndjson(p + ".dumps.ndjson"):
+            dumps[d["id"]] = d["t"]
+    for inst in insts:
+        t = dumps.get(inst["name"])
+        if t is not None and inst["settings"]["builder"] != "custom" and inst["settings"].get("lexer") != "custom":
+            inst["table"] = t
+    res = vgen.build(work, insts)
+    recs = []
+    c11 = []
+    ngen = 0
+    for inst in insts:
+        r = res[inst["name"]]
+        iid = "%s|%s" % (inst["shape"], "/".join("%s=%s" % kv for kv in sorted(inst["settings"].items())))
+        if r["generated"] == "panic" or r["generated"] == "crash":
+            c11.append(dict(id=iid, what=[["compiler_aborts", r["msg"][:150]]], grammar=inst["grammar"]))
+            continue
+        if r["generated"] != "ok":
+            continue  # rejected by the compiler with a diagnostic (e.g. LR conflicts): not "accepted"
+        ngen += 1
+        gen_errs = [e for e in r["rustc"] if e["file"] in ("g", "g_actions")]
+        my_errs = [e for e in r["rustc"] if e["file"] not in ("g", "g_actions")]
+        if gen_errs:
+            c11.append(dict(id=iid, what=[["rustc_rejects_generated_code", e["file"], e["code"], e["msg"][:120]] for e in gen_errs[:3]],
+                            grammar=inst["grammar"]))
+            continue
+        if my_errs:
+            run.log("query module of %s does not compile: %s" % (iid, my_errs[:2]))
+            continue
+        if inst["settings"]["builder"] != "default" or inst["table"] is None:
+            continue
+        for j, (inp, out) in enumerate(zip(inst["inputs"], r["runs"])):
+            want = _re.findall(r"\d+|[a-z]+", inp.split("//")[0] + " " + " ".join(x.split("\n", 1)[1] if "\n" in x else ""
+                                                                                 for x in inp.split("//")[1:]))
+            if inst["shape"] == "bool_assign":
+                want = [w for w in want if w.isdigit()]
+            if inst["shape"] == "all_const":
+                want = []
+            body = out
+            ok = out.startswith("ok")
+            if ok and inst["settings"]["algo"] == "glr":
+                body = out.split(";;")[0]
+                body = body.split(" ", 2)[2] if body.count(" ") >= 2 else ""
+            got = _re.findall(r'"((?:[^"\\]|\\.)*)"', body) if ok else []
+            recs.append({"id": iid, "input": inp, "res": "ok" if ok else out[:120], "want": want, "got": got,
+                         "wnone": inst["nones"][j] if inst["nones"] else -1, "gnone": len(_re.findall(r"\bNone\b", body))})
+    rp = work.path("ast", "recs.ndjson")
+    with open(rp, "w") as f:
+        for x in recs:
+            f.write(json.dumps(x) + "\n")
+    r = run.run_tlc(work, "CheckAst", "CheckAst.cfg", {"RECS": rp}) if recs else {"verdicts": [], "distinct": 0, "states": 0}
+    verdicts = r["verdicts"]
+    gt = {}
+    for inst in insts:
+        gt["%s|%s" % (inst["shape"], "/".join("%s=%s" % kv for kv in sorted(inst["settings"].items())))] = inst["grammar"]
+    return {"verdicts": [v for v in verdicts if v["bad"]], "c11": c11, "gtext": gt,
+            "states": r["distinct"], "transitions": r["states"],
+            "ncases": len(insts), "ngenerated": ngen, "ntraces": len(verdicts),
+            "nshapes": len(AST_SHAPES), "ncombos": len(combos),
+            "samples": [dict(id=x["id"], input=x["input"], want=x["want"], got=x["got"]) for x in recs[:120:50]]}
+
+
+STAGES = {"ast": stage_ast, "codegen": stage_codegen, "builder": stage_builder, "determinism": stage_determinism, "regen": stage_regen, "pipeline": stage_pipeline, "lex": stage_lex, "resolve": stage_resolve, "prec": stage_prec, "tables": stage_tables, "lr": stage_lr, "mci_lr": stage_mci_lr, "glr": stage_glr}
 
 
 # ---------------------------------------------------------------------------
@@ -1344,7 +1583,7 @@ def coverage(prop, res, stage_names):
                                                    "ntables", "maxlen", "wall", "nambiguous", "ninscope", "nlrglr",
                                                    "ncells_exercised", "ngrammars_with_conflicts",
                                                    "mc_lex_configurations", "mc_lex_ok", "nmulti_survivors",
-                                                   "outcomes", "mc_pipeline_ok", "mc_regen_ok", "nregenerations", "nkeys", "nsugar_uses", "nrejected") if k in r}
+                                                   "outcomes", "mc_pipeline_ok", "mc_regen_ok", "nregenerations", "nkeys", "nsugar_uses", "nrejected", "programs", "nqueries", "nruns", "npaired", "ngenerated", "nshapes", "ncombos") if k in r}
         cov["per_stage"][st]["divergences"] = len(r.get("divergences", []))
     cov["states"] = max(cov["states"], 1)
     cov["transitions"] = max(cov["transitions"], 1)
